@@ -53,11 +53,21 @@ def behaviour(ds, can_register):
     for o in dicts():
         out.append([outcome(lambda: ds.evaluate(copy.deepcopy(o))), outcome(lambda: sorted(ds.keys(copy.deepcopy(o))))])
     late = []
+    from ..fixtures import pickle_fix
+
     if can_register:
-        ds.register("late", Value("late-impl"))
+        late.append(outcome(lambda: ds.register("late", Value("late-impl"))))
         for o in ({"D": "late"}, {"D": "late", "A": 1}, {"D": "x", "B": 3}):
             late.append(outcome(lambda: ds.evaluate(copy.deepcopy(o))))
+        late.append(outcome(lambda: bool(ds.overload("late2")(pickle_fix.late_impl))))
+        late.append(outcome(lambda: ds.evaluate({"D": "late2"})))
         late.append(sorted(map(repr, ds.overloads.lookup)))
+    else:
+        # a dataset without a dispatch refuses overloads - before and after the round trip
+        late.append(outcome(lambda: bool(ds.overload("late2")(pickle_fix.late_impl))))
+        late.append(outcome(lambda: ds.evaluate({"A": 1, "D": "late2"})))
+        late.append(outcome(lambda: ds.register("late3", Value("late-impl"))))
+        late.append(outcome(lambda: ds.evaluate({"A": 1, "D": "late3"})))
     return {"per_dict": out, "late": late}
 
 
@@ -119,6 +129,12 @@ def run_case(case):
             reference = pickle.loads(pickle.dumps(ds, protocol=pickle.HIGHEST_PROTOCOL))
             orig_plain = [[outcome(lambda: ds.evaluate(copy.deepcopy(o))), outcome(lambda: sorted(ds.keys(copy.deepcopy(o))))] for o in dicts()]
             want = behaviour(reference, can_register)
+            if not can_register:
+                # refusing overloads does not modify the dataset, so the ORIGINAL can be asked directly
+                want_orig = behaviour(ds, can_register)
+                if want_orig["late"] != want["late"]:
+                    fail("round-trip-changed-overload-refusal", name, f"original {want_orig['late']} vs copy {want['late']}")
+                want = want_orig
             if want["per_dict"] != orig_plain:
                 fail("round-trip-changed-behaviour", name, _diff(orig_plain, want["per_dict"]))
             got = behaviour(loaded, can_register)
@@ -128,7 +144,7 @@ def run_case(case):
                 fail("in-process-round-trip-changed-behaviour", name, _diff(orig_plain, got["per_dict"]))
             if got["late"] != want["late"]:
                 fail("in-process-late-registration-differs", name, f"{got['late']} vs {want['late']}")
-            if can_register and (not got["late"] or got["late"][0] != ["ok", repr(freeze(("cb", "late-impl")))] and got["late"][0] != ["ok", repr(freeze("late-impl"))]):
+            if can_register and (not got["late"] or got["late"][0][0] != "ok" or got["late"][1] not in (["ok", repr(freeze(("cb", "late-impl")))], ["ok", repr(freeze("late-impl"))])):
                 fail("unpickled-dataset-not-usable-for-registration", name, repr(got["late"]))
             # the original was not affected by what we did to the copies
             again = [[outcome(lambda: ds.evaluate(copy.deepcopy(o))), outcome(lambda: sorted(ds.keys(copy.deepcopy(o))))] for o in dicts()]
